@@ -1,0 +1,28 @@
+//go:build verif
+
+package reorgdetector
+
+import "context"
+
+// Hooks for the verification harness (build tag verif): thin wrappers, no logic of their own.
+
+// VerifDetectOnce runs one pass of the periodic reorg check (what the ticker of Start calls).
+func (rd *ReorgDetector) VerifDetectOnce(ctx context.Context) error { return rd.detectReorgInTrackedList(ctx) }
+
+// VerifTracked returns the in-memory tracked headers of a subscriber (block number -> hash), for observation.
+func (rd *ReorgDetector) VerifTracked(id string) map[uint64][32]byte {
+	rd.trackedBlocksLock.RLock()
+	hdrs, ok := rd.trackedBlocks[id]
+	rd.trackedBlocksLock.RUnlock()
+	out := map[uint64][32]byte{}
+	if !ok {
+		return out
+	}
+	for _, h := range hdrs.getSorted() {
+		out[h.Num] = h.Hash
+	}
+	return out
+}
+
+// VerifClose closes the detector's database handle.
+func (rd *ReorgDetector) VerifClose() error { return rd.db.Close() }
